@@ -428,7 +428,13 @@ def extract_wiring(p, cls):
         appends = []
         carried = None
         local_ctor = {}
+        alt_ctor = {}
         for s in st.body:
+            # the block class chosen per iteration: if c: b = A(in_degrees=prev, ..) else: b = B(in_degrees=prev, ..)
+            if isinstance(s, ast.If) and len(s.body) == 1 and len(s.orelse) == 1 and all(isinstance(q, ast.Assign) and len(q.targets) == 1 and isinstance(q.targets[0], ast.Name) and isinstance(q.value, ast.Call) and _kw(q.value, "in_degrees", None) is not None for q in (s.body[0], s.orelse[0])) and s.body[0].targets[0].id == s.orelse[0].targets[0].id and norm_text(_kw(s.body[0].value, "in_degrees", None)) == norm_text(_kw(s.orelse[0].value, "in_degrees", None)):
+                local_ctor[s.body[0].targets[0].id] = s.body[0].value
+                alt_ctor[s.body[0].targets[0].id] = s.orelse[0].value
+                continue
             if isinstance(s, ast.Expr) and isinstance(s.value, ast.Call) and isinstance(s.value.func, ast.Attribute) and s.value.func.attr == "append":
                 recv = s.value.func.value
                 key = recv.id if isinstance(recv, ast.Name) else (attr_chain(recv) if attr_chain(recv) and attr_chain(recv).startswith("self.") else None)
@@ -453,6 +459,10 @@ def extract_wiring(p, cls):
         if isinstance(ctor.func, ast.Name):
             info["ctor_classes"] = set(env.get("#ctors", {}).get(ctor.func.id, set()))
             r = p.resolve_expr(cls.module, ctor.func)
+            if isinstance(r, ClassInfo):
+                info["ctor_classes"].add(r)
+        if blockvar is not None and blockvar in alt_ctor and isinstance(alt_ctor[blockvar].func, ast.Name):
+            r = p.resolve_expr(cls.module, alt_ctor[blockvar].func)
             if isinstance(r, ClassInfo):
                 info["ctor_classes"].add(r)
         if isinstance(ind, ast.Name) and carried is not None and carried[0] == ind.id:
